@@ -887,6 +887,8 @@ func unknownKeys(res *vkit.Result, auxDir string) {
 		var ins []insertion
 		walkMaps(conf, nil, func(m map[string]any, path []string) {
 			ins = append(ins, insertion{Path: path, Kind: "unknown", Key: "zz_unknown_key"})
+			// the same key written without a value ("zz_unknown_key:" / "~" / "null" in YAML)
+			ins = append(ins, insertion{Path: path, Kind: "unknown-null", Key: "zz_unknown_key"})
 			keys := make([]string, 0, len(m))
 			for k := range m {
 				keys = append(keys, k)
@@ -905,6 +907,9 @@ func unknownKeys(res *vkit.Result, auxDir string) {
 			if in.Kind == "unknown" {
 				m[in.Key] = 1
 				desc = fmt.Sprintf("unknown key %q inserted at /%s", in.Key, strings.Join(in.Path, "/"))
+			} else if in.Kind == "unknown-null" {
+				m[in.Key] = nil
+				desc = fmt.Sprintf("unknown key %q without a value (null) inserted at /%s", in.Key, strings.Join(in.Path, "/"))
 			} else {
 				// one-letter misspelling: the value moves to the misspelled key
 				m[in.Key+"x"] = m[in.Key]
